@@ -202,6 +202,24 @@ def empty_change_sessions():
     return out
 
 
+def multi_change_sessions():
+    """ONE didChange carrying several full-text contentChanges entries (schema-legal; added after mutation wave 5, C08-mut7:
+    a server that applies every entry in turn must not block on the task it spawned for the previous one), followed by
+    requests, in burst and settled mode"""
+    out = []
+    for mode in ("burst", "settled"):
+        for kind in ("hover", "documentSymbol"):
+            for texts in ([MAIN2, MAIN1], [MAIN2, MAIN1, MAIN2]):
+                steps = [{"open": "main.td", "text": MAIN1}, {"wait_idle": True},
+                         {"change": "main.td", "text": texts[0], "texts": texts}, req_step(kind),
+                         {"change": "main.td", "text": texts[0], "texts": texts}, req_step("references"), {"wait_idle": True}]
+                sc = base_script(steps, [])
+                sc["mode"] = mode
+                out.append({"name": "didChange with %d content entries before a %s request (%s)" % (len(texts), kind, mode),
+                            "critical": True, "script": sc})
+    return out
+
+
 BIG = "".join("class K%d;\n" % i for i in range(2000))
 
 
@@ -240,10 +258,10 @@ def run(ctx):
         crit = [s for s in one + dg if s["critical"]]
         rest = [s for s in one + dg if not s["critical"]]
         rng.shuffle(rest)
-        controlled = crit + rest[:150] + two_task_schedules(rng, 40) + empty_change_sessions()
+        controlled = crit + rest[:150] + two_task_schedules(rng, 40) + empty_change_sessions() + multi_change_sessions()
         bursts = burst_sessions(rng, 24) + crowd_sessions(10) + crowd_sessions(10)
     else:
-        controlled = one + dg + two_task_schedules(rng, 400) + empty_change_sessions()
+        controlled = one + dg + two_task_schedules(rng, 400) + empty_change_sessions() + multi_change_sessions()
         bursts = burst_sessions(rng, 150) + [c for _ in range(6) for c in crowd_sessions(25)]
 
     # the hooks-off binary (production configuration) is built only when the hooks-on sessions found nothing
